@@ -22,7 +22,9 @@ RULE = (
     "records are written by the harness as raw pickles whose state dict lacks abort_reason and/or carries "
     "_offset/bytes_written/bytes_read; in 10% of the cases the repository's own tests/unit/resources/data/transfers.* "
     "shelve is the seed), modern initial transfers added to a real TransferManager, and a history of 0..8 ops from "
-    "{write (store_data), stop (TransferManager.stop + store_data + restart, as SoulSeekClient.stop does), restart "
+    "{write (store_data), stop (the session is a real, never connected SoulSeekClient on the same cache directory and "
+    "ends by the real SoulSeekClient.stop(); in a third of these its shares cache write raises OSError -- whatever "
+    "stop() raises, the transfer cache must then hold the manager's transfers; followed by a restart), restart "
     "(fresh manager + load_data on the same directory WITHOUT a write: the process can end at any point, the last "
     "written snapshot counts), set (put a live transfer into another state / field combination, with the pending "
     "task and speed log a running client would hold), remove (TransferManager.remove), add}; a final restart always "
@@ -36,9 +38,14 @@ RULE = (
     "equals the last written snapshot with INITIALIZING->QUEUED, DOWNLOADING/UPLOADING->COMPLETE iff filesize == "
     "bytes_transfered else INCOMPLETE, remotely_queued false, other states and their times unchanged; every loaded "
     "transfer is in manager.transfers once, has the manager as state listener once, an unlocked state lock and a "
-    "state object bound to itself; at the final restart the manager is started for 20 ms of virtual time (stub "
-    "network): a management cycle must run, queue every loaded QUEUED download remotely and initialise one QUEUED "
-    "upload per user; then one driven state change per loaded transfer must reach "
+    "state object bound to itself. Every session (process) runs with its own time.monotonic origin drawn from "
+    "{0, 5 s, 1 h, 40 d} (lower than the previous one = reboot / cache moved, equal = same boot, higher), and "
+    "transfers carry 0, 1, 2 or 30 failed remote-queue / upload-request attempts stamped with the monotonic clock of "
+    "the session that made them (Transfer.increase_queue_attempts; the stamps are persisted). At the final restart a "
+    "FRESH download is added per peer that has a loaded QUEUED/INCOMPLETE download and the manager is started for 1 s "
+    "of virtual time (stub network, peer reachable): a management cycle must run, every loaded QUEUED/INCOMPLETE "
+    "download must be queued remotely if its fresh twin is (differential), one QUEUED upload per user must be "
+    "initialised, and no cancelled manager task may have died with an exception; then one driven state change per loaded transfer must reach "
     "TransferManager.on_transfer_state_changed exactly once with the right old/new states. avoid_collision cases "
     "(half) drop, inside run_case, any transfer whose user+path concatenation equals that of a different transfer "
     "seen earlier in the case, so the space behind the key-collision finding is explored; a case stops being "
@@ -58,8 +65,14 @@ ASSUMPTIONS = [
     "queue-attempt counters, place_in_queue, speed logs and the times of repaired states are outside the property "
     "(DESIGN Appendix A) and not compared",
     "scheduling probe: user status UNKNOWN (not offline), 16 upload slots, network replaced by a stub that accepts "
-    "every peer message and never answers; 'one upload per user' (C05) is taken as given; only loaded QUEUED "
-    "transfers are required to be picked up",
+    "every peer message and never answers; 'one upload per user' (C05) is taken as given; loaded QUEUED uploads and "
+    "loaded QUEUED/INCOMPLETE downloads are required to be picked up, downloads only relative to a fresh download of "
+    "the same peer added in the same session (1 s window)",
+    "time.monotonic has an undefined reference point per process (Python documentation), so a later session may see "
+    "any origin; time.monotonic of aioslsk.transfer.model and aioslsk.transfer.manager is the virtual loop clock plus "
+    "the session's origin",
+    "shutdown faults: only the store of ANOTHER service (shares cache write) fails; a failing transfer cache write is "
+    "outside the property. Client sessions are not started (no management task runs between the generated ops)",
     "state changes between writes are applied by assigning state objects and fields directly (the transition graph "
     "itself is C03's subject); removal goes through TransferManager.remove",
     "the shelve backend is whatever dbm picks in this interpreter (dbm.dumb here); cache directories live on /dev/shm "
@@ -81,6 +94,11 @@ TIMES = [None, 0.0, 1.0, 3.0, 1700000000.25]
 MAX_TRANSFERS = 8
 MAX_OPS = 8
 ANY = '<any>'
+# time.monotonic() has an undefined reference point per process/boot: each session (process) of a case runs with its
+# own origin, "uptime at session start", drawn from these values (equal consecutive values = same boot, clock goes on)
+UPTIMES = [5.0, 5.0, 3600.0, 40 * 86400.0, 0.0]
+TWIN_PATH = '@@c17\\fresh-twin'
+PROBE_WINDOW = 1.0
 KEY_COLLISION = 'C17/key-collision:user+path-concat'
 
 # ---------------------------------------------------------------------------
@@ -109,7 +127,7 @@ def _gen_fields(r):
         'piq': r.choice([None, 0, 3]),
         'st': r.choice(TIMES),
         'ct': r.choice(TIMES),
-        'qa': r.choice([0, 0, 2]),
+        'qa': r.choice([0, 0, 1, 2, 30]),
     }
 
 
@@ -146,15 +164,17 @@ def _gen_case(seed):
     ops = []
     for _ in range(r.randint(0, MAX_OPS - 1)):
         kind = r.choice(['write', 'write', 'write', 'restart', 'stop', 'set', 'set', 'set', 'remove', 'add'])
-        if kind in ('write', 'restart', 'stop'):
+        if kind in ('write', 'restart'):
             ops.append([kind])
+        elif kind == 'stop':
+            ops.append(['stop', r.choice([0, 0, 1])])
         elif kind == 'remove':
             ops.append(['remove', r.randint(0, 7)])
         elif kind == 'add':
             ops.append(['add', _gen_transfer(r, pool, False)])
         else:
             full = _gen_fields(r)
-            keys = r.sample(['s', 'size', 'lp', 'fr', 'ar', 'rq', 'st', 'ct'], r.randint(1, 3))
+            keys = r.sample(['s', 'size', 'lp', 'fr', 'ar', 'rq', 'st', 'ct', 'qa'], r.randint(1, 3))
             if r.random() < 0.5 and 's' not in keys:
                 keys.append('s')
             upd = {k: full[k] for k in sorted(keys)}
@@ -162,8 +182,10 @@ def _gen_case(seed):
                 upd['done'] = full['done']
             ops.append(['set', r.randint(0, 7), upd])
     if r.random() < 0.75:
-        ops.append([r.choice(['write', 'write', 'stop'])])
+        last = r.choice(['write', 'write', 'stop', 'stop'])
+        ops.append([last] if last == 'write' else ['stop', r.choice([0, 1])])
     return {
+        'uptimes': [r.choice(UPTIMES) for _ in range(r.randint(1, 4))],
         'avoid_collision': avoid,
         'seed_repo_cache': r.random() < 0.1,
         'transfers': transfers,
@@ -371,8 +393,15 @@ def _apply(t, m, runtime=True):
     t.place_in_queue = m['piq']
     t.start_time = m['st']
     t.complete_time = m['ct']
-    t.queue_attempts = m['qa']
-    t.last_queue_attempt = 12.5 * m['qa']
+    # failed attempts to queue remotely / to request the upload, stamped with the monotonic clock of *this* session
+    # exactly as Transfer.increase_queue_attempts does (the stamps are persisted by __getstate__)
+    t.reset_queue_attempts()
+    t.reset_upload_request_attempts()
+    for _ in range(min(m['qa'], 40)):
+        if m['d'] == 1:
+            t.increase_queue_attempts()
+        else:
+            t.increase_upload_request_attempt()
 
 
 def _legacy_pickle(m):
@@ -421,10 +450,29 @@ async def _noop(*args, **kwargs):
 _SETTINGS = None
 
 
-class _Session:
-    """A fresh 'client': real TransferManager + UserManager + EventBus + shelve cache on ``directory``."""
+class _SharesCache:
+    """Shares cache of a client session; ``fail`` = its location cannot be written at shutdown (quota, read-only)."""
 
-    def __init__(self, directory):
+    def __init__(self, fail):
+        self.fail = fail
+        self.writes = 0
+
+    def read(self):
+        return []
+
+    def write(self, shared_directories):
+        self.writes += 1
+        if self.fail:
+            raise OSError(122, 'Disk quota exceeded', 'shares_index')
+
+
+class _Session:
+    """A fresh 'client' on ``directory``. Bare: real TransferManager + UserManager + EventBus + shelve cache and a
+    stub network. With ``client_fault`` not None: a real (never connected, services not started) SoulSeekClient whose
+    transfer cache is the shelve cache and whose shares cache fails on write iff ``client_fault`` is true; such a
+    session ends with the real SoulSeekClient.stop()."""
+
+    def __init__(self, directory, client_fault=None):
         from aioslsk.events import EventBus
         from aioslsk.settings import CredentialsSettings, Settings
         from aioslsk.transfer.cache import TransferShelveCache
@@ -435,13 +483,25 @@ class _Session:
             _SETTINGS = Settings(credentials=CredentialsSettings(username='me', password='pw'))
             _SETTINGS.transfers.limits.upload_slots = 16
         settings = _SETTINGS
-        self.bus = EventBus()
-        self.net = _StubNetwork()
-        self.users = UserManager(settings, self.bus, self.net)
+        self.client = None
+        self.shares_cache = None
+        if client_fault is None:
+            self.bus = EventBus()
+            self.net = _StubNetwork()
+            self.users = UserManager(settings, self.bus, self.net)
+            self.manager = TransferManager(settings, self.bus, self.users, object(), self.net,
+                                           cache=TransferShelveCache(directory))
+        else:
+            from aioslsk.client import SoulSeekClient
+            self.shares_cache = _SharesCache(bool(client_fault))
+            self.client = SoulSeekClient(settings, shares_cache=self.shares_cache,
+                                         transfer_cache=TransferShelveCache(directory))
+            self.bus = self.client.events
+            self.net = None
+            self.users = self.client.users
+            self.manager = self.client.transfers
         self.users.track_user = _noop
         self.users.untrack_user = _noop
-        self.manager = TransferManager(settings, self.bus, self.users, object(), self.net,
-                                       cache=TransferShelveCache(directory))
         self.notified = []
         original = self.manager.on_transfer_state_changed
 
@@ -483,6 +543,18 @@ def run_case(case) -> CaseResult:
     raw_ops = case.get('ops')
     raw_ops = raw_ops if isinstance(raw_ops, list) else []
     seed_repo = bool(case.get('seed_repo_cache', False))
+    uptimes = [float(v) for v in (case.get('uptimes') if isinstance(case.get('uptimes'), list) else [])
+               if _is_num(v) and 0 <= v <= 1e9][:8] or [5.0]
+
+    def session_end(start):
+        """How the session that begins before op ``start`` ends: None = killed/plain restart (bare session),
+        0/1 = by SoulSeekClient.stop() without/with a failing shares cache (decided from the op list alone)."""
+        for op in raw_ops[:MAX_OPS][start:]:
+            if isinstance(op, list) and op and op[0] == 'restart':
+                return None
+            if isinstance(op, list) and op and op[0] == 'stop':
+                return 1 if (len(op) >= 2 and op[1] and not isinstance(op[1], (list, dict, str))) else 0
+        return None
 
     concat_seen = {}      # (user+path, direction) -> identity, for avoid_collision
     stats = {'dropped_avoid': 0, 'collision': False, 'nontrivial': False, 'restarts': 0, 'writes': 0}
@@ -602,7 +674,21 @@ def run_case(case) -> CaseResult:
                 res.violate(f'C17/unexpected-exception:{type(exc).__name__}@{api}', repr(exc))
                 raise _Stop()
 
-        # ---- the old cache ------------------------------------------------
+        # ---- per-session monotonic clock: origin = "uptime when the session's process started" -----------
+        import types
+        import aioslsk.transfer.manager as manager_module
+        import aioslsk.transfer.model as model_module
+        clock = {'boot': 0, 'uptime': uptimes[0], 'highest_before': uptimes[0]}
+        base_ns = model_module.time          # the loop-bound namespace installed by vfw.simloop for this loop
+        ns = types.SimpleNamespace(**vars(base_ns))
+        ns.monotonic = lambda: clock['uptime'] + (loop.time() - simloop.START_TIME)
+        ns.perf_counter = ns.monotonic
+        model_module.time = ns
+        manager_module.time = ns
+        if len(set(uptimes)) > 1:
+            res.label('clock-origin-varies')
+
+        # ---- the old cache (written by the process of boot 0) --------------
         disk = {}          # identity -> model record (what the cache holds, unrepaired)
         removed = set()    # identities removed from the live list and not (re-)added / reloaded since
         db_path = os.path.join(tmp, TransferShelveCache.DEFAULT_FILENAME)
@@ -636,10 +722,17 @@ def run_case(case) -> CaseResult:
 
         live = []          # model records of the live list (order irrelevant)
 
-        async def restart(final):
+        async def restart(final, next_op=0):
             nonlocal live
             stats['restarts'] += 1
-            session = _Session(tmp)
+            # a new process: its monotonic clock has its own origin (lower after a reboot, equal = same boot)
+            clock['boot'] += 1
+            new_uptime = uptimes[clock['boot'] % len(uptimes)]
+            if new_uptime < clock['uptime']:
+                res.label('restart:clock-lower')
+            clock['highest_before'] = max(clock['highest_before'], clock['uptime'])
+            clock['uptime'] = new_uptime
+            session = _Session(tmp, None if final else session_end(next_op))
             await lib('TransferManager.load_data', session.manager.load_data)
             mgr = session.manager
             where = 'load'
@@ -693,11 +786,19 @@ def run_case(case) -> CaseResult:
             loaded = list(mgr.transfers)
             if not loaded:
                 return
-            # (1) the new client starts its services: the management task must run a cycle for the loaded transfers
+            # (1) the new client starts its services: the management task must run a cycle for the loaded transfers.
+            # Differential: per peer with a loaded download that has to be picked up, a FRESH download of the same
+            # peer is added in this session; whatever the scheduling does for the fresh one within the window it
+            # must do for the loaded one (peer reachable: the stub network accepts every message).
+            due = [m for m in live if m['d'] == 1 and m['s'] in ('QUEUED', 'INCOMPLETE')]
+            for user in sorted({m['u'] for m in due}):
+                await lib('TransferManager.download', lambda: mgr.download(user, TWIN_PATH))
             await lib('TransferManager.start', mgr.start)
-            await asyncio.sleep(0.02)      # < MIN_TRANSFER_MGMT_INTERVAL: exactly the first cycle
+            await asyncio.sleep(PROBE_WINDOW)
             cancelled = await lib('TransferManager.stop', mgr.stop)
-            await asyncio.gather(*cancelled[1], return_exceptions=True)
+            for outcome in await asyncio.gather(*cancelled[1], return_exceptions=True):
+                if isinstance(outcome, Exception):
+                    res.violate(f'C17/unexpected-exception:{type(outcome).__name__}@task-after-load', repr(outcome))
             if session.cycles == 0:
                 res.violate('C17/no-management-cycle-after-load',
                             f'{len(loaded)} transfers loaded and the manager started, but no management cycle ran '
@@ -708,23 +809,32 @@ def run_case(case) -> CaseResult:
             upload_reqs = {(u, getattr(msg, 'filename', None)) for u, msg in session.net.peer_sent
                            if isinstance(msg, PeerTransferRequest.Request)}
             by_user_uploads = {}
-            for m in live:
-                if m['s'] != 'QUEUED':
+            for m in due:
+                if (m['u'], m['p']) in queued_remote:
                     continue
-                if m['d'] == 1:
-                    if (m['u'], m['p']) not in queued_remote:
-                        res.violate('C17/not-scheduled:download',
-                                    f'loaded QUEUED download {_ident(m)} (persisted remotely_queued='
-                                    f'{disk[_ident(m)]["rq"]}, state {disk[_ident(m)]["s"]}) was not queued remotely '
-                                    f'by a management cycle')
-                else:
+                if (m['u'], TWIN_PATH) not in queued_remote:
+                    res.label('probe:fresh-twin-not-scheduled-either')     # not a matter of loading
+                    continue
+                was = disk[_ident(m)]
+                rel = 'session-clock-lower' if clock['uptime'] < clock['highest_before'] else 'session-clock-not-lower'
+                res.violate(f"C17/not-scheduled:download:{m['s']}:queue_attempts{'>0' if m['qa'] else '=0'}:{rel}",
+                            f'loaded {m["s"]} download {_ident(m)} (persisted state {was["s"]}, remotely_queued='
+                            f'{was["rq"]}, queue_attempts={was["qa"]}; this session started with monotonic clock '
+                            f'{clock["uptime"]}, origins of the sessions: {uptimes}) was not queued remotely within '
+                            f'{PROBE_WINDOW} s of virtual time although a fresh download of the same peer was')
+            for m in live:
+                if m['s'] == 'QUEUED' and m['d'] == 0:
                     by_user_uploads.setdefault(m['u'], []).append(m)
             for user in sorted(by_user_uploads):
                 ms = by_user_uploads[user]
                 if not any((user, m['p']) in upload_reqs for m in ms):
-                    res.violate('C17/not-scheduled:upload',
-                                f'none of the loaded QUEUED uploads {[_ident(m) for m in ms]} was initialised by a '
-                                f'management cycle')
+                    rel = 'session-clock-lower' if clock['uptime'] < clock['highest_before'] else \
+                        'session-clock-not-lower'
+                    res.violate(f"C17/not-scheduled:upload:request_attempts"
+                                f"{'>0' if any(m['qa'] for m in ms) else '=0'}:{rel}",
+                                f'none of the loaded QUEUED uploads {[_ident(m) for m in ms]} was initialised within '
+                                f'{PROBE_WINDOW} s of virtual time (session clock origin {clock["uptime"]}, origins '
+                                f'{uptimes})')
             res.label('probe:management-cycle')
             # (2) one driven state change per loaded transfer reaches the manager
             for t in loaded:
@@ -754,7 +864,7 @@ def run_case(case) -> CaseResult:
             res.label('probe:state-change')
 
         # ---- session 1 ------------------------------------------------------
-        session = await restart(final=False)
+        session = await restart(final=False, next_op=0)
         for m in initial:
             if m['legacy']:
                 continue
@@ -764,18 +874,36 @@ def run_case(case) -> CaseResult:
             await lib('TransferManager.add', lambda: session.manager.add(t))
             live.append(dict(m))
 
-        for op in raw_ops[:MAX_OPS]:
+        for op_index, op in enumerate(raw_ops[:MAX_OPS]):
             if not isinstance(op, list) or not op or not isinstance(op[0], str):
                 continue
             kind = op[0]
             if kind in ('write', 'stop'):
                 stats['writes'] += 1
-                if kind == 'stop':
-                    # what SoulSeekClient.stop() does with its services before the process ends
-                    cancelled = await lib('TransferManager.stop', session.manager.stop)
-                    await asyncio.gather(*cancelled[1], return_exceptions=True)
-                    res.label('op:stop')
-                await lib('TransferManager.store_data', session.manager.store_data)
+                where = 'read-after-write'
+                if kind == 'stop' and session.client is not None:
+                    # the process ends by the real SoulSeekClient.stop(); in a generated fraction the shares cache
+                    # (an earlier service) cannot be written. Whatever stop() raises, the transfer cache must hold
+                    # the manager's transfers afterwards.
+                    fault = session.shares_cache.fail
+                    where = 'read-after-stop:shares-store-fails' if fault else 'read-after-write'
+                    try:
+                        await session.client.stop()
+                    except Exception as exc:  # noqa: BLE001
+                        if not fault:
+                            res.violate(f'C17/unexpected-exception:{type(exc).__name__}@SoulSeekClient.stop', repr(exc))
+                            raise _Stop()
+                        res.label(f'op:stop:raised-{type(exc).__name__}')
+                    res.label('op:stop:shares-store-fails' if fault else 'op:stop:client')
+                    if session.shares_cache.writes == 0:
+                        res.label('op:stop:shares-cache-never-written')
+                else:
+                    if kind == 'stop':
+                        # what SoulSeekClient.stop() does with this service before the process ends
+                        cancelled = await lib('TransferManager.stop', session.manager.stop)
+                        await asyncio.gather(*cancelled[1], return_exceptions=True)
+                        res.label('op:stop')
+                    await lib('TransferManager.store_data', session.manager.store_data)
                 # what is really in the manager must be what the model thinks (harness sanity)
                 groups = {}
                 for m in live:
@@ -791,16 +919,16 @@ def run_case(case) -> CaseResult:
                 except Exception as exc:  # noqa: BLE001
                     res.violate(f'C17/unexpected-exception:{type(exc).__name__}@TransferShelveCache.read', repr(exc))
                     raise _Stop()
-                hit = compare_set('read-after-write', back, live, _expect_raw, removed)
+                hit = compare_set(where, back, live, _expect_raw, removed)
                 disk.clear()
                 for m in live:
                     disk[_ident(m)] = copy.deepcopy(m)
                 if hit or len(res.violations) > n_before:
                     raise _Stop()
                 if kind == 'stop':
-                    session = await restart(final=False)
+                    session = await restart(final=False, next_op=op_index + 1)
             elif kind == 'restart':
-                session = await restart(final=False)
+                session = await restart(final=False, next_op=op_index + 1)
                 res.label('restart-mid-history')
             elif kind == 'remove' and len(op) >= 2 and isinstance(op[1], int) and not isinstance(op[1], bool):
                 if not live:
@@ -883,8 +1011,11 @@ MANIFEST_ENTRY = {
                  'reference model of the persisted snapshot and of the documented state repair',
     'level_text': 'Generated-history exploration: every write is read back through a fresh cache object and compared as '
                   'a permutation of the live list; every restart builds a fresh TransferManager on the same directory '
-                  'and compares its transfers with the repaired last snapshot, checks listener/list wiring, runs one '
-                  'real management cycle on a virtual-time loop and drives one state change per loaded transfer. '
+                  'and compares its transfers with the repaired last snapshot, checks listener/list wiring, runs the '
+                  'real management task for 1 s on a virtual-time loop (loaded downloads against a fresh twin of the '
+                  'same peer, sessions with different monotonic clock origins) and drives one state change per loaded '
+                  'transfer; sessions that end by the real SoulSeekClient.stop() get a failing shares cache in a '
+                  'generated fraction. '
                   'Sampled lists and histories over a deliberately small name alphabet; no proof.',
     'level_note': 'Trusted base: the reference model in checks/c17.py (fields of DESIGN Appendix A), the virtual loop, '
                   'Hypothesis, a stub network that accepts every peer message. Legacy records are raw pickles framed '
